@@ -90,6 +90,19 @@ func (g *wgen) refTo(ids []string, allowNS bool) *spec.Spec {
 	return &spec.Spec{Kind: spec.KRef, RefID: rapid.SampledFrom(ids).Draw(g.t, "refID")}
 }
 
+// inlineObject is an object that is not registered in any scope: it appears in place of a type and holds a marker
+// and one or two references (plain, or under a list) that must resolve in the scope enclosing it.
+func (g *wgen) inlineObject(ids []string, allowNS bool) *spec.Spec {
+	g.marker++
+	o := &spec.Spec{Kind: spec.KObject, ID: fmt.Sprintf("I%d", g.marker)}
+	o.Props = append(o.Props, spec.Prop{Name: fmt.Sprintf("k%d", g.marker), Type: &spec.Spec{Kind: spec.KBool}, Required: true})
+	o.Props = append(o.Props, spec.Prop{Name: "r", Type: g.refTo(ids, allowNS)})
+	if rapid.Bool().Draw(g.t, "inlineSecond") {
+		o.Props = append(o.Props, spec.Prop{Name: "rl", Type: &spec.Spec{Kind: spec.KList, Items: g.refTo(ids, allowNS), Max: spec.P(int64(2))}})
+	}
+	return o
+}
+
 func (g *wgen) scope(depth int, allowNS bool) *spec.Spec {
 	n := rapid.IntRange(1, 3).Draw(g.t, "nObjects")
 	ids := append([]string(nil), idPool...)
@@ -104,7 +117,7 @@ func (g *wgen) scope(depth int, allowNS bool) *spec.Spec {
 			name := fmt.Sprintf("p%d", i)
 			var pt *spec.Spec
 			required := false
-			switch rapid.IntRange(0, 7).Draw(g.t, "propKind") {
+			switch rapid.IntRange(0, 8).Draw(g.t, "propKind") {
 			case 0:
 				pt = g.leaf()
 				required = rapid.Bool().Draw(g.t, "req")
@@ -120,7 +133,22 @@ func (g *wgen) scope(depth int, allowNS bool) *spec.Spec {
 					if j == 1 && rapid.Bool().Draw(g.t, "oneMember") {
 						break
 					}
-					oo.Members = append(oo.Members, spec.Member{KeyS: key, Type: g.refTo(ids, allowNS)})
+					// a member is a reference, an object written in place (which may itself hold references), or a
+					// nested scope
+					var mt *spec.Spec
+					switch rapid.IntRange(0, 4).Draw(g.t, "memberKind") {
+					case 0:
+						mt = g.inlineObject(ids, allowNS)
+					case 1:
+						if depth+1 < 3 {
+							mt = g.scope(depth+1, allowNS)
+						} else {
+							mt = g.inlineObject(ids, allowNS)
+						}
+					default:
+						mt = g.refTo(ids, allowNS)
+					}
+					oo.Members = append(oo.Members, spec.Member{KeyS: key, Type: mt})
 				}
 				pt = oo
 			case 6:
@@ -128,6 +156,16 @@ func (g *wgen) scope(depth int, allowNS bool) *spec.Spec {
 					pt = g.scope(depth+1, allowNS)
 				} else {
 					pt = g.leaf()
+				}
+			case 7:
+				// an object written in place, directly or as list item / map value
+				switch rapid.IntRange(0, 2).Draw(g.t, "inlineWhere") {
+				case 0:
+					pt = g.inlineObject(ids, allowNS)
+				case 1:
+					pt = &spec.Spec{Kind: spec.KList, Items: g.inlineObject(ids, allowNS), Max: spec.P(int64(2))}
+				default:
+					pt = &spec.Spec{Kind: spec.KMap, Keys: &spec.Spec{Kind: spec.KString}, Values: g.inlineObject(ids, allowNS), Max: spec.P(int64(2))}
 				}
 			default:
 				pt = &spec.Spec{Kind: spec.KList, Items: g.leaf(), Max: spec.P(int64(2))}
@@ -342,6 +380,8 @@ func specJSON(w World) string {
 	return string(b)
 }
 
+var inlineUnbuildable int
+
 func run(c Case) string {
 	root, msg := build(c.World)
 	if msg != "" {
@@ -353,7 +393,14 @@ func run(c Case) string {
 	inlWorld := World{Root: inl, Ext: c.World.Ext, Order: c.World.Order}
 	inlRoot, imsg := build(inlWorld)
 	if imsg != "" {
-		inlRoot = nil // the inlined form could not be built (e.g. one-of member became a scope); skip the metamorphic part
+		if !strings.HasPrefix(imsg, "building the root scope failed") && !strings.HasPrefix(imsg, "harness:") {
+			// the inlined world is a world like any other (every self-namespace reference still has its object in its
+			// own scope): a link-state failure there means that a reference stopped being linked because an object
+			// took the place of the reference that led to it
+			return "after replacing references by the objects they denote: " + imsg + "\nworld: " + specJSON(c.World) + "\ninlined: " + specJSON(inlWorld)
+		}
+		inlRoot = nil // the constructors refuse the inlined form; skip the metamorphic part (counted)
+		inlineUnbuildable++
 	}
 	for _, in := range c.Inputs {
 		raw := in.Go()
@@ -503,7 +550,12 @@ func TestWorlds(t *testing.T) {
 		if nontrivial && ev.WantSample("world") {
 			ev.Sample("world", c)
 		}
-		if msg := run(c); msg != "" {
+		msg := run(c)
+		if inlineUnbuildable > 0 {
+			ev.Class("inlined_form_refused_by_constructors", int64(inlineUnbuildable))
+			inlineUnbuildable = 0
+		}
+		if msg != "" {
 			ev.Fail(rt, "world", c, "%s", msg)
 		}
 	})
